@@ -8,7 +8,7 @@ PROPERTY = "C01"
 LEVEL = "exploration"
 RULE = (
     "cases = (stack of 1-6 layers drawn from all seven layer types in any order over sync or thread_pool(1-3), 2-6 submissions "
-    "from 1-3 submitter threads each with its own args/kwargs and per-invocation outcome script, scripted layer functions / retry "
+    "from 1-3 submitter threads each with its own args/kwargs (a third of them with a keyword named like a parameter of the library's own methods: fn, timeout, retry_policy, ...) and per-invocation outcome script, scripted layer functions / retry "
     "policies / poll behaviours, tape<=8). Oracle: a sequential reference interpreter of the same layers (lib/models.py StackModel) "
     "gives per submission the outcome (value tag or the very exception object), the number of invocations and the layer-function call "
     "counts; tags make any mis-routing between submissions visible. Non-trivial = depth>=2, >=2 submissions, >=1 pre-emption taken and "
@@ -173,6 +173,9 @@ def case_strategy(max_depth=6):
                 # the last attempt ends with a BaseException that is not an Exception (a pool worker stores it on the future)
                 script = list(script[:-1]) + [["raise", "EB"]]
             spec = {"script": script, "args": [i, "x"], "kwargs": {"kw": i}}
+            if draw(st.integers(0, 2)) == 0:
+                # a keyword of the callable that happens to be a parameter name somewhere in the library's own signatures
+                spec["kwargs"][draw(st.sampled_from(["fn", "timeout", "retry_policy", "delegate", "name", "wait", "args", "kwargs"]))] = ["kwv", i]
             for L in layers:
                 if L["kind"] == "poll":
                     L["per_sub"][fname + ".fn"] = draw(st.sampled_from([
